@@ -122,6 +122,12 @@ TEMPLATES = [
     {"cls": "type", "t": "from t | take «foo:1» 2", "nospan": True},
     {"cls": "type", "t": "from t | select {a, «t.*»} | intersect (from u | select {c})", "check_tok": False},
     {"cls": "type", "t": "from t | derive {x = s\"{«t»}\"}"},
+    # error sites added by 1ae3488 (no span), e6f83f8 and 006e33c (both point at the offending text)
+    {"cls": "sql", "t": "from t | derive {x = «1e400»}", "nospan": True},
+    {"cls": "type", "t": "from [{a = 1}, «5»]"},
+    {"cls": "type", "t": "from [{a = 1}, {a = 2}, «\"x\"»]"},
+    {"cls": "type", "t": "from t | derive {x = «that»}"},
+    {"cls": "type", "t": "from t | join u (==id) | derive {y = «that»}"},
     {"cls": "type", "t": "from t | group a («join u (==id)»)"},
     {"cls": "type", "t": "let f = func a -> «internal nope»\nfrom t | derive x = (f 1)"},
     {"cls": "type", "t": "from t | select {a} | «append null»", "nospan": True},
